@@ -25,4 +25,5 @@ func init() {
 		workerx.ReplayCache(a[0], par)
 	})
 	register("worker-classify", func(a []string) { workerx.Classify() })
+	register("cache-stress", func(a []string) { workerx.CacheStress(a) })
 }
